@@ -124,7 +124,10 @@ func init() {
 					c.Note([]byte(sv(cfg)))
 
 					b := orb.Bound{Min: orb.Point{0, 0}, Max: orb.Point{1024, 1024}}
-					tree := quadtree.New(b)
+					// two identical trees: the twin answers every query alone first (the oracle); the tree itself is
+					// first touched by the concurrent readers, so state that is filled in lazily by the first queries
+					// after building is exercised concurrently too
+					tree, twin := quadtree.New(b), quadtree.New(b)
 					items := make([]*qitem, 0, n)
 					for i := 0; i < n; i++ {
 						var p orb.Point
@@ -146,6 +149,7 @@ func init() {
 							p = orb.Point{float64(r.Intn(9)) * 128, float64(r.Intn(9)) * 128}
 						}
 						it := &qitem{id: i, pt: p}
+						twin.Add(it)
 						if err := tree.Add(it); err != nil {
 							c.Fail("", "Add failed while building the tree", map[string]interface{}{"config": cfg, "point": sv(p), "err": err.Error()})
 							return
@@ -158,6 +162,7 @@ func init() {
 					}
 					for _, i := range r.Perm(len(items))[:int(removeFrac*float64(len(items)))] {
 						it := items[i]
+						twin.Remove(it, func(p orb.Pointer) bool { return p == orb.Pointer(it) })
 						if !tree.Remove(it, func(p orb.Pointer) bool { return p == orb.Pointer(it) }) {
 							c.Fail("", "Remove failed while building the tree", map[string]interface{}{"config": cfg})
 							return
@@ -199,14 +204,17 @@ func init() {
 					quadtree.VerifVisitHook = nil
 					seq := make([][]orb.Pointer, nq)
 					sbuf := make([]orb.Pointer, 0, 64)
+					if twin.VerifHash(idf) != hash0 {
+						c.Fail("", "harness: the twin tree differs from the tree after the same operations", map[string]interface{}{"config": cfg})
+						return
+					}
 					for i := range qs {
-						res := c19run(tree, &qs[i], sbuf)
+						res := c19run(twin, &qs[i], sbuf)
 						seq[i] = append([]orb.Pointer(nil), res...)
 					}
 					c.Evals(nq)
-					if hs := tree.VerifHash(idf); hs != hash0 {
+					if hs := twin.VerifHash(idf); hs != hash0 {
 						c.Fail("", "the tree's structure changed during sequential read-only queries", map[string]interface{}{"config": cfg})
-						hash0 = hs
 					}
 
 					prev := runtime.GOMAXPROCS(procs)
